@@ -38,7 +38,7 @@ def _classes():
 
 
 def plan(tier):
-    n = 41 + 1 + (3000 if tier == "quick" else 600000)
+    n = 41 + 1 + (3000 if tier == "quick" else 3000000)
     return {"cases": n, "shards": 16, "timeout": 600 if tier == "quick" else 3000, "min_nontrivial": 30,
             "min": {"unit_value_checks": 5000, "as_unit_checks": 50000, "compound_units_judged": 100, "names_checked": 50}}
 
